@@ -28,10 +28,10 @@ type c09sActor struct {
 }
 
 type c09sCase struct {
-	Store  StoreCfg
-	Net    simnet.Profile
-	Boxes  []string
-	Actors []c09sActor
+	Store   StoreCfg
+	Net     simnet.Profile
+	Boxes   []string
+	Actors  []c09sActor
 	Prefill int // messages per mailbox delivered before the actors start
 }
 
